@@ -724,7 +724,7 @@ class Model():
 
         if association.extras:
             # Add optional metadata to dict
-            association_dict['extras'] = association.extras
+            association_dict['extras'] = association.extras.as_dict()
 
         return association_dict
 
@@ -852,9 +852,10 @@ class Model():
                     [model.get_asset_by_id(int(id)) for id in targets]
                 )
 
-            #TODO Properly handle extras
-
             model.add_association(association)
+
+            if 'extras' in assoc_entry:
+                association.extras = assoc_entry['extras']
 
         # Reconstruct the attackers
         if 'attackers' in serialized_object:
